@@ -8,6 +8,7 @@
 #include <osmium/handler/chain.hpp>
 #include <osmium/io/input_iterator.hpp>
 #include <osmium/memory/buffer.hpp>
+#include <osmium/memory/collection.hpp>
 #include <osmium/memory/item_iterator.hpp>
 #include <osmium/object_pointer_collection.hpp>
 #include <osmium/osm.hpp>
@@ -118,6 +119,8 @@ template class osmium::memory::ItemIterator<const osmium::InnerRing>;
 template class osmium::io::InputIterator<FakeSource, osmium::memory::Item>;
 template class osmium::io::InputIterator<FakeSource, osmium::OSMObject>;
 
+template class osmium::memory::CollectionIterator<osmium::RelationMember>;
+
 void verif_driver_c20(osmium::memory::Buffer& buffer, const osmium::memory::Buffer& cbuffer,
                       osmium::memory::Item& item, const osmium::memory::Item& citem,
                       osmium::OSMEntity& entity, const osmium::OSMEntity& centity,
@@ -174,4 +177,10 @@ void verif_driver_c20(osmium::memory::Buffer& buffer, const osmium::memory::Buff
     (void)range;
     auto irange = osmium::io::make_input_iterator_range<osmium::OSMObject>(src);
     (void)irange;
+
+    // postfix / prefix increments of the collection iterators (const flavour cannot be instantiated explicitly)
+    const osmium::TagList& tags = cobject.tags();
+    auto tit = tags.begin();
+    tit++;
+    ++tit;
 }
